@@ -242,6 +242,39 @@ Theorem C13_allclose_correct_2d_upto6 : forall rtol atol en t1 t2 es fs (t u : p
 Proof. exact allclose_correct_2d_upto6. Qed.
 Print Assumptions C13_allclose_correct_2d_upto6.
 
+(** the universe the correspondence enumerates (shapes (2), (3), (2,2), (3,3), (2,2,2), (6), (2,3), (4,2); index types with unit
+    summands; 4 062 ordered pairs + 354 patterns against themselves): premise, and premise-free correctness *)
+Theorem C13_overlap_exact_small_shapes : forall shp es fs (t u : pt),
+  In shp small_shapes -> In (es, fs) (shape_pairs shp) ->
+  vaxes t = es -> paxes t = fvn_list es -> vaxes u = fs -> paxes u = fvn_list fs ->
+  compare_pre_b 100 t u = true.
+Proof. exact overlap_exact_small_shapes. Qed.
+Print Assumptions C13_overlap_exact_small_shapes.
+
+Theorem C13_overlap_exact_self_small_shapes : forall shp es (t : pt),
+  In shp small_shapes -> In es (shape_selfs shp) -> vaxes t = es -> paxes t = fvn_list es ->
+  compare_pre_b 100 t t = true.
+Proof. exact overlap_exact_self_small_shapes. Qed.
+Print Assumptions C13_overlap_exact_self_small_shapes.
+
+Theorem C13_equal_correct_small_shapes : forall shp es fs (t u : pt) b,
+  In shp small_shapes -> In (es, fs) (shape_pairs shp) ->
+  vaxes t = es -> paxes t = fvn_list es -> vaxes u = fs -> paxes u = fvn_list fs ->
+  equal_model 100 t u = Ok b ->
+  (b = true <-> shape xval t = shape xval u /\
+                forall idx, in_bounds (shape xval t) idx -> denote xval t idx = denote xval u idx /\ denote xval t idx <> XNaN).
+Proof. exact equal_correct_small_shapes. Qed.
+Print Assumptions C13_equal_correct_small_shapes.
+
+Theorem C13_allclose_correct_small_shapes : forall rtol atol en shp es fs (t u : pt) b,
+  In shp small_shapes -> In (es, fs) (shape_pairs shp) ->
+  vaxes t = es -> paxes t = fvn_list es -> vaxes u = fs -> paxes u = fvn_list fs ->
+  allclose_model rtol atol en 100 t u = Ok b ->
+  (b = true <-> shape xval t = shape xval u /\
+                forall idx, in_bounds (shape xval t) idx -> xisclose rtol atol en (denote xval t idx) (denote xval u idx) = true).
+Proof. exact allclose_correct_small_shapes. Qed.
+Print Assumptions C13_allclose_correct_small_shapes.
+
 (** * the premise cannot be dropped: operands typed by different sum decompositions of a dimension
     (the library warns "index type mismatch"): [equal] answers True on different dense tensors *)
 Theorem C13_equal_mixed_types_refuted :
